@@ -480,6 +480,30 @@ func c14Build(c c14StructCase) c14Case {
 		}
 		b.WriteString("leaf x { type identityref { base i0; } } }")
 		out.Text = b.String()
+	case "identity-lattice":
+		// n layers of two identities, each derived from both of the layer before: no cycle, 2^n ways up
+		var b strings.Builder
+		b.WriteString("module m { yang-version 1.1; namespace \"urn:m\"; prefix m; identity a0; identity b0; ")
+		layers := n
+		if layers > 64 {
+			layers = 64
+		}
+		for i := 1; i <= layers; i++ {
+			fmt.Fprintf(&b, "identity a%d { base a%d; base b%d; } identity b%d { base a%d; base b%d; } ", i, i-1, i-1, i, i-1, i-1)
+		}
+		if c.V%2 == 1 && layers > 0 {
+			fmt.Fprintf(&b, "identity a0x { base a%d; } ", layers) // (no cycle either)
+		}
+		fmt.Fprintf(&b, "leaf x { type identityref { base a0; } } }")
+		out.Text = b.String()
+	case "extension-body":
+		// an extension statement with a body of definitions, written in statements of every kind
+		host := []string{"revision 2020-01-01 { %s }", "identity i { %s }", "feature f { %s }", "leaf h { type string; must \"x\" { %s } }", "leaf h { type enumeration { enum a { %s } } }",
+			"leaf h { type bits { bit a { %s } } }", "container h { %s }", "typedef t { type string; %s }", "leaf h { type string { pattern \"a\" { %s } } }", "leaf h { type string; %s }",
+			"rpc r { input { %s } }", "leaf h { type int8 { range \"1..2\" { %s } } }"}[c.V%12]
+		body := []string{"leaf inb { type string; }", "leaf inb { type m:pct; }", "leaf inb { type identityref { base idb; } }", "leaf inb { type leafref { path \"../inb2\"; } } leaf inb2 { type int8; }",
+			"uses g;", "container inc { leaf x { type pct; } }", "list inl { key k; leaf k { type string; } }", "leaf inb { if-feature ff; type string; }"}[c.N%8]
+		out.Text = hdr("m") + "extension note { argument text; } typedef pct { type uint8; } identity idb; feature ff; grouping g { leaf gl { type string; } } " + fmt.Sprintf(host, "m:note \"a\" { "+body+" }") + " }"
 	case "leafref-cycle":
 		var b strings.Builder
 		b.WriteString(hdr("m"))
@@ -688,7 +712,7 @@ func c14Build(c c14StructCase) c14Case {
 
 var c14Shapes = []string{"include-cycle-nodata", "import-misnamed-cycle", "disabled-uses-cycle", "nest-container", "nest-list", "nest-choice", "nest-grouping", "nest-open", "nest-close", "nest-union", "nest-ext", "ext-args", "ext-args-str", "concat", "concat-dangling",
 	"many-siblings", "dup-siblings", "dup-statements", "dup-header", "unterminated-dquote", "unterminated-squote", "unterminated-comment", "line-comment-eof", "line-comment-only", "backslash-eof",
-	"typedef-cycle", "grouping-cycle", "grouping-cycle-unused", "identity-cycle", "leafref-cycle", "union-self", "import-self", "import-mutual", "import-chain-cycle", "include-self", "include-mutual",
+	"typedef-cycle", "grouping-cycle", "grouping-cycle-unused", "identity-cycle", "identity-lattice", "extension-body", "leafref-cycle", "union-self", "import-self", "import-mutual", "import-chain-cycle", "include-self", "include-mutual",
 	"include-module", "import-submodule", "import-garbage", "import-missing", "include-missing", "import-readerr", "include-readerr", "serve-same", "leafref-to-container", "leafref-to-list", "leafref-into-import",
 	"augment-bad-target", "refine-bad-target", "refine-wrong-kind", "deviation", "default-twice", "key-missing", "unique-bad", "type-unknown", "uses-unknown", "base-unknown", "range-garbage",
 	"pattern-garbage", "enum-garbage", "bits-garbage", "default-mismatch", "feature-garbage", "submodule-top", "rpc-shapes", "when-garbage", "empty-bodies", "long-ident", "long-token-run", "no-module"}
